@@ -289,9 +289,24 @@ def stats(case, res, st):
 _ANTI = []
 
 
+def _wide_sin(k):
+    """a very wide orthographic field (50 degrees across) with a little distortion: towards the limb the fixed-point steps leave the
+    valid hemisphere, the iterate becomes NaN and the root finder takes over from the initial guess"""
+    p = {"crpix": [500.0, 500.0], "crval": [[30.0, 40.0], [200.0, -35.0], [359.0, 10.0]][k % 3], "scale": 0.05, "rot": 0.0, "parity": -1, "proj": "SIN",
+         "bbox": [[0.0, 1000.0], [0.0, 1000.0]], "dist": {"order": 2, "cx": {"c2_0": 1e-6}, "cy": {"c0_2": 1e-6}}}
+    pts = [[500.0, 500.0], [120.0, 870.0], [1100.0, 500.0], [500.0, 1010.0]]
+    for ang in (45, 60, 120, 135, 225, 300, 315):
+        a = math.radians(ang + 7 * (k // 3))
+        pts.append([500 + 800 * math.cos(a), 500 + 800 * math.sin(a)])
+    return {"wcs": "sky", "path": "iterative", "params": p, "box": p["bbox"], "pix": pts, "fill": [None, -1.0, 0.0][k % 3], "withbb": None,
+            "nan_at": [], "bad_axis": 0}
+
+
 def gen(rng, tier):
     del _ANTI[:]
     q = tier == "quick"
+    for k in range(3 if q else 18):
+        yield _wide_sin(k)
     for _ in range(150 if q else 6000):
         dim = rng.choice([1, 2, 2])
         ab = [[rng.choice([1.0, 2.0, -1.0, 0.5, 4.0, -2.0]), float(rng.randint(-20, 20))] for _ in range(dim)]
